@@ -117,6 +117,9 @@ def prepare(ctx, props_modules):
         if not ctx.spec_ok:
             ctx.say("[build] specdriver FAILED")
             ctx.build_output += out[-2000:]
+        rc, out = sh(["lake", "build", "strdriver"], cwd=LEAN)     # fragment S's own correspondence driver (harness/strcheck.py)
+        ctx.str_ok = rc == 0
+        ctx.str_build_output = "" if rc == 0 else out[-1500:]
         # the property's theorems
         ok = True
         built = []
